@@ -240,6 +240,7 @@ func (r *lrunner) runFault(cs LCase) (out Outcome, problem string) {
 	if err != nil {
 		return out, "client.New: " + err.Error()
 	}
+	done0 := c.Done() // the application keeps this channel for the whole life of the client (Reset included)
 	r.f.setProbe(p)
 	r.f.stub.setEcho(echo)
 	if err := c.UseStub(spb.NewGRIBIClient(r.f.conn)); err != nil {
@@ -391,7 +392,7 @@ func (r *lrunner) runFault(cs LCase) (out Outcome, problem string) {
 			out.Done = true // Reset drains Done(): not observable in this mode
 		}
 		if out.Closed {
-			out.Fresh = r.furtherExchange(c, cs, &problem)
+			out.Fresh = r.furtherExchange(c, done0, cs, &problem)
 		}
 	default:
 		if timed(shortWatchdog, func() { c.Close() }) {
@@ -424,7 +425,7 @@ func (r *lrunner) runFault(cs LCase) (out Outcome, problem string) {
 
 // furtherExchange: after Reset the client must be as new: nothing pending, no results, no errors,
 // Done() empty; after Connect on a new stream three requests are answered and the client converges.
-func (r *lrunner) furtherExchange(c *client.Client, cs LCase, problem *string) bool {
+func (r *lrunner) furtherExchange(c *client.Client, done0 <-chan struct{}, cs LCase, problem *string) bool {
 	ok := true
 	note := func(format string, a ...any) {
 		ok = false
@@ -492,6 +493,12 @@ func (r *lrunner) furtherExchange(c *client.Client, cs LCase, problem *string) b
 	if !timed(shortWatchdog, func() { c.Close() }) {
 		note("HANG: Close of the reconnected client")
 		return false
+	}
+	// an application that obtained Done() when it created the client still holds that channel
+	select {
+	case <-done0:
+	case <-time.After(shortWatchdog):
+		note("the Done() channel obtained before Reset was not signalled when the reconnected client ended")
 	}
 	return ok
 }
